@@ -123,6 +123,7 @@ SHORT = {
     'C15-agent6': 'binary loaders test end of file through peek() stored in a char (a record starting with byte 0xFF, source vertex 255 / 511, ends the load silently)',
     'C16-agent6': 'UndirectedWeightedGraph::removeDuplicateEdges caches the last weight by neighbour index across vertices (two duplicated pairs sharing the larger endpoint: total weight wrong)',
     'C02-agent6': 'undirected removeSelfLoops returns early when the number of adjacency-list entries is even ("no self-loop": in fact an even number of them)',
+    'C17-agent6': 'text loader grows the returned vertex-name vector only by the second column (line "2 0" after "0 1": std::string written past the end)',
     'C18-agent6': 'getSubgraph / getSubgraphWithRemap test membership through a function-local static vector<bool> mask for subsets of 48 or more vertices (shared by all threads)',
     'C19-agent6': 'findVertexPredecessors keeps its FIFO in a vector and compacts "every 128 vertices" but erases one entry too few (the 129th, 258th ... dequeued vertex is scanned twice)',
     'C20-agent6': 'topology.hpp gains a free assertVertexInGraph(const Graph&, const VertexIndex&) next to the one in paths.hpp (ambiguous call once both headers are in one TU and an entry point of the second is instantiated)',
@@ -182,6 +183,7 @@ CONSEQUENCE = {
     'C11-agent6': 'missed as it stood: the graphs of C11 had at most 10 vertices, the many-path families belonged to C19 (work counts only) -> a C11 job on the layered / grid / diamond / ladder / clique-chain families at sizes where every pair has at most 4^6 or 3^8 shortest paths, complete path sets compared',
     'C12-agent6': "missed by C12 as it stood (C09 caught it): the searched graph was always the object the history was applied to -> `via`: 30 % of the cases search a copy, a rebuild through the container constructor (vector or list) from the graph's edges and weights, or a moved-to object",
     'C14-agent6': 'missed as it stood: every case wrote to a path that did not exist -> in a quarter of the round trips of C13 and C14 the output path already holds a file (junk, one record, or a longer file than the new one)',
+    'C17-agent6': 'missed by C17 as it stood (C13 and C15 report it): no stream of C17 called the loaders -> the round-trip, subgraph and conversion streams of C13, C14, C10 and C09 run under the san and o0 builds of C17',
     'C18-agent6': 'missed as it stood: the shared graphs had 3-7 vertices -> a second C18 job on shared graphs with 66-100 vertices and hubs; its subgraph subsets hold four vertices in five (53-80 members)',
 }
 
@@ -229,7 +231,7 @@ that found it originally.
 
 ### 9.2 Changes written by independent sub-agents (`seeded/<id>/`)
 
-%d changes - five per property and a sixth for fifteen of them - each written by a fresh sub-agent that was given
+%d changes, six per property, each written by a fresh sub-agent that was given
 only the text of one property and its own scratch worktree (nothing from
 `/verif`); the agents of the second and third round were additionally told, in
 one line each, what the earlier ones had done and asked for something unrelated,
@@ -241,12 +243,12 @@ outcome). Confirmed for all of them by `tools/mutant_run.py` and
 `demo.cpp` exits non-zero with the patch and 0 without.
 
 **All %d are now reported by the quick tier** (seed 1)%s.
-51 of them were *not* (or not reliably, or only by the check of another property)
+55 of them were *not* (or not reliably, or only by the check of another property)
 caught by the version of the checks that existed when they were written; the last
 column says what was changed in the machinery because of them - in every case by
 widening the generator or the set of observations, never by special-casing the
 change. The miss rate did not go down from round to round - 5, 6, 11, 16 and 9
-of 20, then 4 of 15 (C08-agent6, reported by C09 alone, not counted) - because the later agents were asked for subtler changes: the fourth round
+of 20, then 6 of 20 (not counting C08-agent6, reported by C09 alone) - because the later agents were asked for subtler changes: the fourth round
 was asked for changes that need *accumulated state*, a *word-size threshold*
 (64 neighbours, 256 vertices, 8192 records, 2^14 updates, 2^16 calls), *two
 cooperating sites* or *an order of three different operations on one object*. It
@@ -260,14 +262,15 @@ combinations of two features; what it added are value-semantics operations insid
 histories (copy, self-assignment, move, rebuilding through a container
 constructor), setters in the construction histories of the graph-shaped cases,
 duplicate entries in the round-trip graphs and file names that differ only in
-their extension. The sixth round (fifteen properties) was asked for failures that
+their extension. The sixth round was asked for failures that
 depend on values or positions (index relations, list positions, particular label,
 weight or multiplicity values, neighbour counts) or on two features used one after
-the other; eleven of the fifteen were reported by the checks as they stood, and
-the four misses added many-path families with complete path sets to C11,
-multiplicity-0 container entries to C09, output paths that already hold a file to
-C13 / C14, and searches on copies, container-constructor rebuilds and moved-to
-objects to C12.
+the other; fourteen of the twenty were reported by the check of their property as
+it stood, and the six misses added many-path families with complete path sets to
+C11, multiplicity-0 container entries to C09, output paths that already hold a file
+to C13 / C14, searches on copies, container-constructor rebuilds and moved-to
+objects to C11 / C12, large shared graphs to C18, and the file, subgraph and
+conversion streams to C17.
 
 | id | change | reported by | consequence for the machinery |
 |---|---|---|---|
